@@ -24,12 +24,20 @@ import OjgVerif.Gen.JpathFacts
   pointers are **not** modelled; `C11_repr_current` says that these branch tables select the same elements —
   that the branch tables are what the reflect/Keyed/Indexed code does is established by the correspondence run
   on real typed Go data (reflect.SliceOf/ArrayOf/StructOf/MapOf values and two hand-written collections).
-* Filters are an abstract predicate (see Props/C05.lean).
+* Filters are an abstract predicate (see Props/C05.lean): every theorem here says that two evaluators handed
+  THE SAME predicate agree. Which predicate a script denotes for an evaluator is outside the theorems — and for
+  a script that reads from `$` it is not the same one everywhere: Get, FirstFound, Has, GetNodes and FirstNode
+  hand their own argument to the script as the root, `Filter.locate` hands nil and `Filter.Walk` the tested
+  element (flags `locFilterRootNil`, `walkFilterRootSelf`, interpreted in `Driver.rootFor`; known findings
+  C11-locate-filter-root, C11-walk-filter-root). The run gives each model the predicate its evaluator applies
+  (`FilterSpec.filterOf` with that root) and judges the agreement; the Locate/Walk theorems cover scripts
+  without `$` and, for the others, the repaired binding only.
 
 Deviations are flags of `Cfg`; the general theorems are parametric in the configuration and name the flags
 they need off. `*_current` are the statements for **the code as it is now** (`Cfg.pinned`, after the fixes
-baff053, 0e0caaf, fa2ed77, 5d79291, 360668e, 1af5385, 21977aa, 6d09ec9, 6f19325, 927d89c, c654348): only
-`locStartClamp` and `firstTypedSlice`, both pinned by the suite, are still on. `*_before_*` document what
+baff053, 0e0caaf, fa2ed77, 5d79291, 360668e, 1af5385, 21977aa, 6d09ec9, 6f19325, 927d89c, c654348): of the
+traversal flags only `locStartClamp` and `firstTypedSlice`, both pinned by the suite, are still on (and the
+three script-root flags, which no theorem reads). `*_before_*` document what
 failed before a fix (`Cfg.original`). -/
 namespace OjgVerif.C11
 open OjgVerif OjgVerif.JPath
@@ -428,7 +436,7 @@ theorem C11_first_typed_slice_witness :
 computed by the extractor by searching the printed function bodies of jp/*.go for the line a repair put in or
 took out (tools/extract/jpath.go); this theorem is `decide` over those Bools. It says `Cfg.pinned` carries
 exactly the deviations whose tell-tale lines are in the source now, so undoing a repair (or repairing one of
-the two pinned deviations) breaks the build. That the model matches the code otherwise is the run's business. -/
+the pinned deviations) breaks the build. That the model matches the code otherwise is the run's business. -/
 theorem pinned_is_source :
     Cfg.pinned.innerEmptySlice = Gen.JpathFacts.innerEmptySlice ∧
     Cfg.pinned.descentSiblings = Gen.JpathFacts.descentSiblings ∧
@@ -447,6 +455,11 @@ theorem pinned_is_source :
     Cfg.pinned.firstTypedWildOne = Gen.JpathFacts.firstTypedWildOne ∧
     Cfg.pinned.hasTypedMap = Gen.JpathFacts.hasTypedMap ∧
     Cfg.pinned.hasTypedDescent = Gen.JpathFacts.hasTypedDescent ∧
-    Cfg.pinned.walkTypedArray = Gen.JpathFacts.walkTypedArray := by decide
+    Cfg.pinned.walkTypedArray = Gen.JpathFacts.walkTypedArray ∧
+    Cfg.pinned.nestedFilterRoot = Gen.JpathFacts.nestedFilterRoot ∧
+    Cfg.pinned.locFilterRootNil = Gen.JpathFacts.locFilterRootNil ∧
+    Cfg.pinned.walkFilterRootSelf = Gen.JpathFacts.walkFilterRootSelf ∧
+    -- not a flag: Get, FirstFound, Has, GetNodes and FirstNode hand their own argument to a filter as its root
+    Gen.JpathFacts.filterRootIsArgument = true := by decide
 
 end OjgVerif.C11
